@@ -26,6 +26,9 @@ mod test_util;
 pub mod async_device;
 
 pub mod nb_device;
+
+#[cfg(lora_rs_verif)]
+pub mod verif;
 use nb_device::state::State;
 
 pub use lorawan::{
